@@ -17,7 +17,7 @@ RULE = ('seeded value generator (ints of any magnitude, floats incl. -0.0/inf/na
         'distinct_nontrivial = distinct (value class, storage mode read from the row, side of T, disk class, store '
         'path) cells')
 DISTINCT = ('cells',)
-REQUIRED = ('stores_over_expired_file', 'stores_over_live_file', 'stores_over_expired_inline', 'mode_raw', 'mode_binary_file', 'mode_text_file', 'mode_pickle_inline', 'mode_pickle_file',
+REQUIRED = ('numbers_stepped_in_place', 'stores_over_expired_file', 'stores_over_live_file', 'stores_over_expired_inline', 'mode_raw', 'mode_binary_file', 'mode_text_file', 'mode_pickle_inline', 'mode_pickle_file',
             'streams', 'rejected_values', 'jsondisk_roundtrips', 'deque_roundtrips', 'index_roundtrips',
             'fanout_roundtrips', 'push_roundtrips', 'fault_injected_stores', 'configs_lookup_in_transaction',
             'configs_lookup_lock_free', 'relative_directory_roundtrips', 'relocated_directory_roundtrips',
@@ -310,6 +310,31 @@ def run_config(dc, sc, res, rng, T, proto, disk_name, level, budget):
                     ok &= case.judge(cls, 'incr(default)', 'incr result', expect, r, 'raw')
                     ok &= case.judge(cls, 'incr(default)', 'get', expect, cache.get(key + 'i'), 'raw')
                     cache.pop(key + 'i')
+        # ---- numbers changed in place by incr / decr: what is read back is what incr returned, type included; a step that
+        # leaves the 64-bit range is refused as a whole (the stored number stays) or stored exactly - never something else
+        if not json_only:
+            for start, delta in ((2**63 - 2, 1), (2**63 - 2, 3), (-2**63 + 1, -1), (-2**63 + 1, -5), (2**62, 2**62),
+                                 (2**53, 1), (10, 2.5), (1.5, 1), (0.1, 0.2), (-1, 1), (2**63 - 1, -2**63)):
+                key = 'stepped'
+                cache.set(key, start)
+                op = 'incr' if delta >= 0 else 'decr'
+                try:
+                    r = getattr(cache, op)(key, abs(delta))
+                except (OverflowError, TypeError) as exc:
+                    r = exc
+                res.count('numbers_stepped_in_place')
+                res.seen('cells', ('stepped', start, delta))
+                back = cache.get(key)
+                if isinstance(r, Exception):
+                    good = same(back, start)
+                    want = start
+                else:
+                    want = start + delta
+                    good = same(r, want) and same(back, want)
+                if not good:
+                    res.violation('%s(%r) on the stored number %r gave %r; the key now holds %r, expected %r' % (
+                        op, abs(delta), start, r, back, want), {'config': cfg_label, 'start': start, 'delta': delta})
+                cache.pop(key)
         # ---- streams
         if True:
             for size in [0, 1, max(T - 1, 0), T, T + 1] + ([2**22 - 1, 2**22, 2**22 + 1] if budget > 150 and T == 16 else []):
